@@ -446,6 +446,8 @@ void World::setup_from_header() {
 	debug = h.getb("debug") || getenv("CJETSIM_DEBUG");
 	g_arena.fill_mode = (uint64_t)h.getd("fill", 0);
 	g_arena.fill_state = mix64(plan.seed, 0xF111) | 1;
+	g_arena.reuse = h.has("arena_reuse") ? h.getb("arena_reuse") : (mix64(plan.seed, 0xA7E4A) % 4 == 0);   // a quarter of the runs recycle freed blocks
+	if (g_arena.reuse) probe("arena_recycles_freed_blocks");
 	g_kernel.urandom_state = mix64(plan.seed, 0x7A9D) | 1;
 	g_kernel.fds.reserve(16384);
 	g_kernel.fd_base = 1000 + (int)(mix64(plan.seed, 0xFD) % 500);
